@@ -574,6 +574,73 @@ def g3u(rng):
                 ext={K: rng.randint(1, 7), M: rng.randint(1, 4), N: rng.randint(1, 5)}, env={}, tags=["g3u"])
 
 
+def g3dd(rng):
+    """TWO dynamic flattenings on one tensor that become valid at different loop levels:
+    Z[m, n] = A[k, m, j, n] (* optionally B[n]) with K and J split by occupancy, (M, K0) and (N, J0) flattened;
+    loop order [K1, MK0, J1, NJ0] or [K1, J1, MK0, NJ0]"""
+    K, M, J, N = rng.choice([("K", "M", "J", "N"), ("P", "I", "Q", "H")])
+    decl = {"A": [K, M, J, N], "Z": [M, N]}
+    fs = [("t", "A", [V(K), V(M), V(J), V(N)])]
+    if rng.random() < 0.3:
+        decl["B"] = [N]
+        fs.insert(rng.randint(0, 1), ("t", "B", [V(N)]))
+    e = dict(out="Z", oidx=[V(M), V(N)], terms=[dict(kind="times", factors=fs, sel=None)])
+    parts = {K: ["uniform_occupancy(A.%d)" % rng.randint(1, 4)], "(%s, %s0)" % (M, K): ["flatten()"],
+             J: ["uniform_occupancy(A.%d)" % rng.randint(1, 4)], "(%s, %s0)" % (N, J): ["flatten()"]}
+    loop = rng.choice([[K + "1", M + K + "0", J + "1", N + J + "0"], [K + "1", M + K + "0", J + "1", N + J + "0"], [K + "1", J + "1", M + K + "0", N + J + "0"]])
+    return dict(decl=decl, eins=[e], mapping={"partitioning": {"Z": parts}, "loop-order": {"Z": loop}},
+                ext={K: rng.randint(1, 4), M: rng.randint(1, 3), J: rng.randint(1, 4), N: rng.randint(1, 3)}, env={}, tags=["g3dd", "loop:" + ",".join(loop)])
+
+
+def g2casc(rng):
+    """two Einsums reading the SAME input tensor, each shape-partitioning the same rank of it into the same number of levels but
+    (usually) with different sizes / styles: T[m,n] = A[k,m] * B[k,n];  Z[m,n] = A[k,m] * C[k,n]  (optionally Z reads T)"""
+    K, M, N = rng.choice([("K", "M", "N"), ("J", "I", "H")])
+    decl = {"A": [K, M], "B": [K, N], "C": [K, N], "T": [M, N], "Z": [M, N]}
+    if rng.random() < 0.3:
+        decl["A"] = [M, K]
+    aidx = [V(r) for r in decl["A"]]
+    e1 = dict(out="T", oidx=[V(M), V(N)], terms=[dict(kind="times", factors=[("t", "A", aidx), ("t", "B", [V(K), V(N)])], sel=None)])
+    fs2 = [("t", "A", aidx), ("t", "C", [V(K), V(N)])]
+    tags = ["g2casc"]
+    if rng.random() < 0.3:
+        fs2.append(("t", "T", [V(M), V(N)])); tags.append("reads_intermediate")
+    rng.shuffle(fs2)
+    e2 = dict(out="Z", oidx=[V(M), V(N)], terms=[dict(kind="times", factors=fs2, sel=None)])
+    nl = rng.choice([1, 1, 2])
+    prank = rng.choice([K, K, M])
+    ext = {K: rng.randint(1, 9), M: rng.randint(1, 5), N: rng.randint(1, 4)}
+
+    def stack():
+        top = rng.randint(2, 6)
+        out = []
+        size = top * (rng.randint(1, 3) if nl == 2 else 1)
+        for lvl in range(nl):
+            if rng.random() < 0.25 and lvl == 0:
+                out.append("nway_shape(%d)" % rng.randint(1, 3))
+            else:
+                out.append("uniform_shape(%d)" % size)
+            size = top if lvl == 0 and nl == 2 else size
+        if nl == 2:
+            # sizes must nest: second level divides the first when both are uniform
+            a = rng.randint(1, 3); b = a * rng.randint(1, 3)
+            out = ["uniform_shape(%d)" % b, "uniform_shape(%d)" % a]
+        return out
+    s1, s2 = stack(), stack()
+    if rng.random() < 0.2:
+        s2 = list(s1); tags.append("same_sizes")
+    lv = [prank + str(i) for i in range(nl, -1, -1)]
+
+    def order():
+        others = [r for r in (K, M, N) if r != prank]
+        lo = list(lv)
+        for r in others:
+            lo.insert(rng.randint(0, len(lo)), r)
+        return lo
+    mapping = {"partitioning": {"T": {prank: s1}, "Z": {prank: s2}}, "loop-order": {"T": order(), "Z": order()}}
+    return dict(decl=decl, eins=[e1, e2], mapping=mapping, ext=ext, env={}, tags=tags)
+
+
 def g3z(rng):
     """Z[m,n] = A[k,m] * B[k,n]: an output rank split dynamically into >= 3 levels (an intermediate M1I exists) and a
     second, independently partitioned rank after it (and optionally the contracted rank)"""
@@ -873,6 +940,48 @@ def g4p(rng):
     return case
 
 
+def g4q(rng, part=None):
+    """convolutions over TWO reduction variables, `O[q] = I[a*q + b*s + c*v] * F[s] * K[v]`, the terms of the index expression in
+    any order, b and c of either sign (a negative coefficient needs a pre-halo under shape partitioning; the coordinates below 0
+    are simply absent); optionally the output rank shape-partitioned with the input rank following; loop order omitted,
+    output-stationary, or with the lower output level innermost"""
+    a = rng.choice([1, 1, 2])
+    b = rng.choice([1, 2, -1, -1, -2])
+    c = rng.choice([1, 2, -1, -2, -2])
+    Qx, Sx, Vx = rng.choice([1, 3, 4, 5, 6, 7, 8]), rng.choice([1, 2, 2, 3]), rng.choice([1, 2, 2, 3])
+    hi = a * (Qx - 1) + max(b, 0) * (Sx - 1) + max(c, 0) * (Vx - 1)
+    widx = [(a, "q"), (b, "s"), (c, "v")]
+    rng.shuffle(widx)
+    tags = ["g4q", "conv", "a%d" % a, "b%d" % b, "c%d" % c, "neg%d" % ((b < 0) + (c < 0))]
+    decl = {"I": ["W"], "F": ["S"], "K": ["V"], "O": ["Q"]}
+    fs = [("t", "I", [widx]), ("t", "F", [V("S")]), ("t", "K", [V("V")])]
+    rng.shuffle(fs)
+    ext = {"Q": Qx, "S": Sx, "V": Vx, "W": hi + 1}
+    e = dict(out="O", oidx=[V("Q")], terms=[dict(kind="times", factors=fs, sel=None)])
+    case = dict(decl=decl, eins=[e], mapping={}, ext=ext, env={}, tags=tags)
+    if part is None:
+        part = rng.random() < 0.7
+    if part:
+        sz = rng.choice([1, 2, 2, 3, 3, 4, 5])
+        case["mapping"]["partitioning"] = {"O": {"Q": ["uniform_shape(%d)" % sz], "W": ["follow(Q)"]}}
+        case["env"]["Q0"] = sz
+        case["env"]["W0"] = a * sz
+        tags.append("part1")
+        r = rng.random()
+        if r < 0.4:
+            loop = ["Q1", "Q0"] + rng.sample(["S", "V"], 2)
+        elif r < 0.8:
+            loop = ["Q1"] + rng.sample(["S", "V"], 2) + ["Q0"]
+        else:
+            loop = None
+    else:
+        loop = rng.sample(["Q", "S", "V"], 3) if rng.random() < 0.5 else None
+    if loop:
+        case["mapping"]["loop-order"] = {"O": loop}
+        tags.append("loop:" + ",".join(loop))
+    return case
+
+
 def g4b(rng):
     """convolution with two inputs sharing the affine access, shape + occupancy partitioning of the output rank
     (leader: one of the inputs), input rank following"""
@@ -963,22 +1072,33 @@ def g5conv(rng):
 
 def g5conv2(rng):
     """cascade of two shape-partitioned convolutions over the same input with different filter extents (different halos):
-    O1[q] = I[q + s] * F[s];  O2[p] = I[p + t] * G[t]"""
+    O1[q] = I[q + s] * F[s];  O2[p] = I[p + t] * G[t]; in half of the cases both outputs use the SAME rank Q (so that the two
+    Einsums partition the same (rank, partitioned rank) pair with different halos), optionally with O1 read by the second"""
     Sx, Tx = rng.sample([1, 2, 3, 4], 2)
     Wx = rng.randint(max(Sx, Tx), max(Sx, Tx) + 6)
+    same = rng.random() < 0.5
+    P = "Q" if same else "P"
+    p = P.lower()
     Qx, Px = Wx - Sx + 1, Wx - Tx + 1
+    if same:
+        Qx = Px = min(Qx, Px)
     e1 = dict(out="O1", oidx=[V("Q")], terms=[dict(kind="times", factors=[("t", "I", [[(1, "q"), (1, "s")]]), ("t", "F", [V("S")])], sel=None)])
-    e2 = dict(out="O2", oidx=[V("P")], terms=[dict(kind="times", factors=[("t", "I", [[(1, "p"), (1, "t")]]), ("t", "G", [V("T")])], sel=None)])
+    fs2 = [("t", "I", [[(1, p), (1, "t")]]), ("t", "G", [V("T")])]
+    tags = ["g5conv2", "conv", "a1", "b1", "part1", "cascade_conv"]
+    if same and rng.random() < 0.5:
+        fs2.insert(rng.randint(0, 2), ("t", "O1", [V("Q")])); tags.append("reads_intermediate")
+    e2 = dict(out="O2", oidx=[V(P)], terms=[dict(kind="times", factors=fs2, sel=None)])
     sz = rng.randint(1, 4)
     lo1 = rng.choice([["Q1", "W0", "Q0"], ["Q1", "Q0", "S"], ["Q1", "S", "Q0"]])
-    lo2 = rng.choice([["P1", "W0", "P0"], ["P1", "P0", "T"], ["P1", "T", "P0"]])
-    mapping = {"partitioning": {"O1": {"Q": ["uniform_shape(%d)" % sz], "W": ["follow(Q)"]}, "O2": {"P": ["uniform_shape(%d)" % sz], "W": ["follow(P)"]}},
+    lo2 = rng.choice([[P + "1", "W0", P + "0"], [P + "1", P + "0", "T"], [P + "1", "T", P + "0"]])
+    mapping = {"partitioning": {"O1": {"Q": ["uniform_shape(%d)" % sz], "W": ["follow(Q)"]}, "O2": {P: ["uniform_shape(%d)" % sz], "W": ["follow(%s)" % P]}},
                "loop-order": {"O1": lo1, "O2": lo2}}
     if rng.random() < 0.3:
         del mapping["partitioning"]["O1"]; mapping["loop-order"]["O1"] = rng.choice([["Q", "S"], ["S", "Q"], ["W", "Q"]])
-    return dict(decl={"I": ["W"], "F": ["S"], "G": ["T"], "O1": ["Q"], "O2": ["P"]}, eins=[e1, e2], mapping=mapping,
-                ext={"Q": Qx, "S": Sx, "W": Wx, "P": Px, "T": Tx}, env={"Q0": sz, "P0": sz, "W0": sz},
-                tags=["g5conv2", "conv", "a1", "b1", "part1", "cascade_conv"])
+    ext = {"Q": Qx, "S": Sx, "W": Wx, "T": Tx}
+    ext[P] = Px
+    return dict(decl={"I": ["W"], "F": ["S"], "G": ["T"], "O1": ["Q"], "O2": [P]}, eins=[e1, e2], mapping=mapping,
+                ext=ext, env={"Q0": sz, "P0": sz, "W0": sz}, tags=tags)
 
 
 def g7occ(rng):
@@ -1070,6 +1190,58 @@ def g7lf(rng, **opts):
     fmt = {"Z": {"default": {"rank-order": ["M"], "M": {"format": "C", "pbits": 64}}}}
     return dict(decl=decl, eins=eins, mapping={"loop-order": loop, "spacetime": st}, architecture=arch, bindings=bindings, format=fmt,
                 ext={"M": rng.randint(1, 4), "K": rng.randint(1, 5)}, env={}, tags=["g7lf", ty, "n%d" % n])
+
+
+def g7fmt(rng, **opts):
+    """metrics specifications in which a tensor's FORMAT (and hence its buffer bindings) is declared on the ranks of the
+    declaration while the mapping tiles one of them (the collector maps the bound rank to its top level, e.g. K -> K1);
+    the other input's format is declared on the tiled ranks; DRAM -> Buffet or Cache, bindings on the tiled rank or the other one"""
+    K, M = rng.choice([("K", "M"), ("J", "I")])
+    two = rng.random() < 0.6
+    decl = {"A": [M, K], "Z": [M]}
+    fs = [("t", "A", [V(M), V(K)])]
+    if two:
+        decl["B"] = [K]
+        fs.insert(rng.randint(0, 1), ("t", "B", [V(K)]))
+    e = dict(out="Z", oidx=[V(M)], terms=[dict(kind="times", factors=fs, sel=None)])
+    nl = rng.choice([1, 1, 2])
+    a = rng.randint(1, 3)
+    stack = ["uniform_shape(%d)" % (a * rng.randint(2, 3)), "uniform_shape(%d)" % a][2 - nl:]
+    klev = [K + str(j) for j in range(nl, -1, -1)]
+    pos = rng.randint(0, 1)
+    loop = klev[:pos] + [M] + klev[pos:] if rng.random() < 0.7 else [M] + klev
+    a_plain = rng.random() < 0.75                       # A's format on the declaration's ranks
+    a_order = [M, K] if a_plain else [r for r in loop]
+    def fmt(order, bound):
+        f = {"rank-order": list(order)}
+        for r in order:
+            f[r] = {"format": "C", "cbits": 32, "pbits": 64} if r == bound or rng.random() < 0.5 else {"format": "U", "pbits": 32}
+        return f
+    a_rank = rng.choice([K, K, M]) if a_plain else rng.choice(a_order)
+    formats = {"A": {"default": fmt(a_order, a_rank)}, "Z": {"default": {"rank-order": [M], M: {"format": "C", "cbits": 32, "pbits": 64}}}}
+    buf = rng.choice(["Buffet", "Buffet", "Cache"])
+    evict = {"evict-on": rng.choice([x for x in loop if loop.index(x) < max(1, loop.index(klev[-1]))] or [loop[0]])} if buf == "Buffet" else {}
+    dram, onchip = [], []
+    for ty in rng.choice([["coord", "payload"], ["payload"], ["coord"]]):
+        dram.append({"tensor": "A", "rank": a_rank, "type": ty, "format": "default"})
+        onchip.append(dict({"tensor": "A", "rank": a_rank, "type": ty, "format": "default"}, **evict))
+    if two:
+        b_plain = rng.random() < 0.4
+        b_order = [K] if b_plain else list(klev)
+        b_rank = K if b_plain else rng.choice(b_order)
+        formats["B"] = {"default": fmt(b_order, b_rank)}
+        if rng.random() < 0.7:
+            dram.append({"tensor": "B", "rank": b_rank, "type": "payload", "format": "default"})
+            onchip.append(dict({"tensor": "B", "rank": b_rank, "type": "payload", "format": "default"}, **evict))
+    arch = {"accel": [{"name": "System", "attributes": {"clock_frequency": 10 ** 9},
+                       "local": [{"name": "DRAM", "class": "DRAM", "attributes": {"bandwidth": 512}}],
+                       "subtree": [{"name": "PE", "local": [{"name": "Buf", "class": buf, "attributes": {"width": 64, "depth": 1024}},
+                                                             {"name": "MAC", "class": "compute", "attributes": {"type": "mul"}}]}]}]}
+    bindings = {"Z": [{"config": "accel", "prefix": "tmp/Z"}, {"component": "DRAM", "bindings": dram}, {"component": "Buf", "bindings": onchip},
+                      {"component": "MAC", "bindings": [{"op": "mul"}]}]}
+    return dict(decl=decl, eins=[e], mapping={"partitioning": {"Z": {K: stack}}, "loop-order": {"Z": loop}, "spacetime": {"Z": {"space": [], "time": list(loop)}}},
+                architecture=arch, bindings=bindings, format=formats, ext={M: rng.randint(1, 4), K: rng.randint(1, 9)}, env={},
+                tags=["g7fmt", buf, "A_plain" if a_plain else "A_tiled", "rank:" + a_rank])
 
 
 def g5(rng):
